@@ -231,6 +231,42 @@ def rule_copy(ctx):
                         mutation=C.unparse(n, 80))
         else:
             r.ok(key, where, f"transferred by {mode}; {len(sites)} in-place mutation site(s)")
+    # every attribute is transferred on every path: a store under `if other.<flag>:` is fine only
+    # if <flag> itself is transferred unconditionally (then the guarded value is meaningless when
+    # the flag is off); a flag that is only ever *raised* leaves a re-used target with the flag of
+    # its previous state (seed C03_9)
+    uncond, cond = {}, {}
+    for fn in [ssf] + [c.methods["set_state_from"] for c in fam[1:] if "set_state_from" in c.methods]:
+        for n in walk_local(fn.node):
+            if not isinstance(n, ast.Assign):
+                continue
+            for t in n.targets:
+                if isinstance(t, ast.Attribute) and dotted(t.value) == "self":
+                    ifs = C.enclosing_ifs(fn, n)
+                    if ifs:
+                        guards = set()
+                        for i, _ in ifs:
+                            for x in ast.walk(i.test):
+                                if isinstance(x, ast.Attribute) and isinstance(x.value, ast.Name) and \
+                                        x.value.id not in ("self",):
+                                    guards.add(x.attr)
+                        cond.setdefault(t.attr, []).append((fn, n, guards))
+                    else:
+                        uncond[t.attr] = n
+    for attr, sites in sorted(cond.items()):
+        if attr in uncond:
+            continue
+        for fn, n, guards in sites:
+            key = f"{C.CORE}::ContractionTree::C04-COPY::{attr}::conditional"
+            bad = [g for g in guards if g == attr or (g not in uncond and g not in modes)]
+            only_raised = attr in guards
+            if only_raised or bad:
+                r.violation(key, C.loc(fn, n), f"self.{attr} is transferred only under "
+                            f"`{C.unparse(C.enclosing_ifs(fn, n)[0][0].test, 50)}`: when the source does not have it "
+                            f"set, a target that is re-used (set_state_from on an existing tree, e.g. by "
+                            f"reconfiguration workers) keeps its own old value")
+            else:
+                r.ok(key, C.loc(fn, n), f"guarded by {sorted(guards)}, which is transferred unconditionally")
     # subclass overrides call super().set_state_from
     for c in fam[1:]:
         o = c.methods.get("set_state_from")
